@@ -1,4 +1,5 @@
 """C16  Listings are complete and every href the server emits resolves."""
+import os
 import random
 import re
 import traceback
@@ -209,6 +210,40 @@ class Runner:
         if extra > 0:
             self.viol(f"{self.where()}/{src}/surplus-href", f"{target}: {extra} emitted href(s) address nothing: {unresolved[:4]!r}")
 
+    def check_large(self, colpath, n):
+        """a collection with more members than any buffer a traversal might use: restored from a backup with the git CLI
+        (n events, one commit) while the server runs; every way of listing it must name every member once"""
+        import subprocess
+        w, res = self.w, self.res
+        fsp = w.fs_path(colpath)
+        os.makedirs(fsp)
+        names = ["m%04d.ics" % i for i in range(n)]
+        for i, nm in enumerate(names):
+            with open(os.path.join(fsp, nm), "wb") as f:
+                f.write(("BEGIN:VCALENDAR\r\nVERSION:2.0\r\nPRODID:-//vf//c16//EN\r\nBEGIN:VEVENT\r\nUID:c16-large-%d\r\nDTSTAMP:20240101T000000Z\r\nDTSTART:20240102T100000Z\r\nSUMMARY:e%d\r\nEND:VEVENT\r\nEND:VCALENDAR\r\n" % (i, i)).encode())
+        with open(os.path.join(fsp, ".xandikos"), "w") as f:
+            f.write("[DEFAULT]\ntype = calendar\n")
+        env = dict(w._git_env(), GIT_AUTHOR_NAME="o", GIT_AUTHOR_EMAIL="o@example.com", GIT_COMMITTER_NAME="o", GIT_COMMITTER_EMAIL="o@example.com")
+        for cmd in (["git", "init", "-q", fsp], ["git", "-C", fsp, "add", "-A"], ["git", "-C", fsp, "commit", "-q", "-m", "restored"]):
+            subprocess.run(cmd, check=True, capture_output=True, env=env)
+        want = {w.url(colpath, nm) for nm in names}
+        bodies = {"propfind1": ("PROPFIND", X.propfind([X.P_ETAG])), "sync": ("REPORT", X.sync_collection(None)), "query": ("REPORT", X.calendar_query(X.CAL_MATCH_ALL, data=False))}
+        for src, (method, body) in bodies.items():
+            s, r = self.req("large-" + src, method, w.url(colpath), [("Depth", "1"), X.XML_CT], body)
+            res.evaluations += 1
+            if r.status != 207:
+                self.viol(f"{self.where()}/large-collection/{src}/refused", f"{method} on a collection of {n} members -> {r.status}")
+                continue
+            rs, _ = X.parse_multistatus(r.body)
+            got = [resolve(w.url(colpath), x.href or "") for x in rs]
+            gotm = [g for g in got if g is not None and g.rstrip("/") != w.url(colpath).rstrip("/")]
+            res.count("large_collection_listings")
+            res.count("large_collection_members_listed", len(gotm))
+            missing = sorted(want - set(gotm))
+            if missing or len(gotm) != len(set(gotm)) or set(gotm) - want:
+                self.viol(f"{self.where()}/large-collection/{src}/listing-not-exact", f"{method} ({src}) on a collection of {n} members: {len(missing)} missing (first {missing[:3]!r}), "
+                          f"{len(gotm) - len(set(gotm))} repeated, {len(set(gotm) - want)} unknown")
+
     def check_listing_hrefprops(self, colpath):
         """href-valued properties of the *children* in a Depth 1 listing with an explicit prop list"""
         w = self.w
@@ -397,10 +432,13 @@ def run_shard(args):
     w.res = res
     try:
         w.start()
-        cfg = {k: args[k] for k in ("fe", "prefix", "seed", "names")}
+        cfg = {k: args[k] for k in ("fe", "prefix", "seed", "names", "large") if k in args}
         run = Runner(w, res, rng, cfg)
         layout = [("/user/calendars/cal0/", "calendar"), ("/user/contacts/ab0/", "addressbook"), ("/user/calendars/pl0/", "plain"), ("/user/calendars/pl0/nested/", "plain"), ("/top/", "plain"),
-                  ("/user/calendars/cal0/sub/", "plain"), ("/user/contacts/ab0/sub/", "plain")]
+                  ("/user/calendars/cal0/sub/", "plain"), ("/user/contacts/ab0/sub/", "plain"),
+                  # collections whose names begin with a dot are collections like any other (only the stores' own .git is not)
+                  ("/user/calendars/.hidden/", "calendar"), ("/user/calendars/cal0/.att/", "plain"), ("/user/contacts/.abx/", "addressbook")]
+        res.count("dot_named_collections_tried", 3)
         for p, kind in layout:
             s, r = w.mkcol(p, kind)
             if not W.World.success(s.eff):
@@ -457,6 +495,8 @@ def run_shard(args):
         for p in ("/user/calendars/", "/user/contacts/", "/user/calendars/pl0/", "/user/calendars/cal0/"):
             run.check_listing_hrefprops(p)
         run.check_prop_hrefs()
+        if args.get("large"):
+            run.check_large("/user/calendars/restored-large/", args["large"])
         res.sample({"config": cfg, "names": {p: list(m)[:6] for p, m in run.members.items()}})
     except Exception:
         res.inconclusive.append("harness exception: " + traceback.format_exc()[-1500:])
@@ -474,6 +514,8 @@ def check(tier, seed, t0):
     for rep in range(reps):
         for fe, pre in combos:
             shards.append({"fe": fe, "prefix": pre, "seed": seed * 1000 + len(shards), "names": 14 if not th else 30})
+            if rep == 0 and pre != "/a/b/":
+                shards[-1]["large"] = 1003 + len(shards)
     if th:
         for pre in ("/", "/dav/"):
             shards.append({"fe": "wsgihost", "prefix": pre, "seed": seed * 1000 + len(shards), "names": 30})
@@ -484,6 +526,8 @@ def check(tier, seed, t0):
     stored = c.get("names_stored", 0)
     guards = [("names stored", stored, 800 * k), ("hrefs dereferenced", c.get("hrefs_dereferenced", 0), 6000 * (1 if not th else 7)),
               ("share of generated names stored (percent)", 100 * stored // max(1, c.get("names_tried", 0)), 80)]
+    guards.append(("listings of a collection with more than 1000 members", c.get("large_collection_listings", 0), 8))
+    guards.append(("collections with dot-named sub-collections", c.get("dot_named_collections_tried", 0), 30))
     for f in ("colon", "question", "hash", "semicolon", "percent", "space", "plus", "nonascii", "other-special", "pct-escape-literal", "latin1-pair-that-is-valid-utf8"):
         guards.append(("stored names with feature " + f, c.get("stored:" + f, 0), 3))
     for src in ("propfind1", "propfind1-noslash", "sync", "multiget", "query", "post-location", "proppatch-response", "propfind-404-body", "precondition-error-body", "href-valued-property", "add-member-in-listing"):
